@@ -121,7 +121,7 @@ pub fn rebuild_archive<P: AsRef<Path>>(
 
     // Phase 2: Extract files and metadata
     log::debug!("Phase 2: Extracting files and metadata");
-    let extracted_files =
+    let (extracted_files, listed_count) =
         extract_files_with_metadata(&mut source, &metadata, &options, &progress_callback)?;
 
     let extracted_count = extracted_files.len();
@@ -129,9 +129,9 @@ pub fn rebuild_archive<P: AsRef<Path>>(
 
     if options.list_only {
         return Ok(RebuildSummary {
-            source_files: metadata.file_count,
+            source_files: listed_count,
             extracted_files: extracted_count,
-            skipped_files: metadata.file_count - extracted_count,
+            skipped_files: listed_count - extracted_count,
             target_format: determine_target_format(&metadata, &options),
             verified: false,
         });
@@ -160,9 +160,9 @@ pub fn rebuild_archive<P: AsRef<Path>>(
     };
 
     Ok(RebuildSummary {
-        source_files: metadata.file_count,
+        source_files: listed_count,
         extracted_files: extracted_count,
-        skipped_files: metadata.file_count - extracted_count,
+        skipped_files: listed_count - extracted_count,
         target_format,
         verified,
     })
@@ -205,12 +205,15 @@ fn analyze_archive(archive: &mut Archive) -> Result<ArchiveMetadata> {
 }
 
 /// Extract files with their metadata from the source archive
+///
+/// Returns the extracted files and the number of files the source lists, which is what the
+/// extracted and skipped counts of the summary are relative to.
 fn extract_files_with_metadata(
     archive: &mut Archive,
     metadata: &ArchiveMetadata,
     options: &RebuildOptions,
     progress_callback: &Option<ProgressCallback>,
-) -> Result<Vec<(Vec<u8>, FileMetadata)>> {
+) -> Result<(Vec<(Vec<u8>, FileMetadata)>, usize)> {
     // Get file list. Files are read and re-added by name, so the named listing comes first
     // for every format version; the table enumeration only yields placeholder names that
     // cannot be read back.
@@ -272,7 +275,7 @@ fn extract_files_with_metadata(
         extracted_files.sort_by_key(|(_, meta)| meta.original_index);
     }
 
-    Ok(extracted_files)
+    Ok((extracted_files, total_files))
 }
 
 /// Rebuild the archive with extracted files
